@@ -282,6 +282,8 @@ func (s *Spec) Implied() cty.Type {
 			return cty.Tuple([]cty.Type{s.Kids[0].Implied()})
 		case "isnull":
 			return cty.Bool
+		case "strlen":
+			return cty.Number
 		}
 	}
 	panic("specgen: Implied: bad spec " + s.K + "/" + s.Fn)
@@ -321,6 +323,19 @@ var isNullFunc = function.New(&function.Spec{
 	Type:   function.StaticReturnType(cty.Bool),
 	Impl: func(args []cty.Value, retType cty.Type) (cty.Value, error) {
 		return cty.BoolVal(args[0].IsNull()), nil
+	},
+})
+
+// StrlenFunc changes the type: string -> number. It is total: a null string
+// gives -1, an unknown string an unknown number.
+var StrlenFunc = function.New(&function.Spec{
+	Params: []function.Parameter{{Name: "v", Type: cty.String, AllowNull: true, AllowDynamicType: true}},
+	Type:   function.StaticReturnType(cty.Number),
+	Impl: func(args []cty.Value, retType cty.Type) (cty.Value, error) {
+		if args[0].IsNull() {
+			return cty.NumberIntVal(-1), nil
+		}
+		return cty.NumberIntVal(int64(len(args[0].AsString()))), nil
 	},
 })
 
@@ -376,14 +391,21 @@ func (s *Spec) Build() hcldec.Spec {
 		return &hcldec.DefaultSpec{Primary: s.Kids[0].Build(), Default: s.Kids[1].Build()}
 	case KTExpr:
 		src := "[v]"
-		if s.Fn == "isnull" {
+		switch s.Fn {
+		case "isnull":
 			src = "v == null"
+		case "strlen":
+			src = "strlen(v)"
 		}
-		return &hcldec.TransformExprSpec{Wrapped: s.Kids[0].Build(), Expr: mustExpr(src), TransformCtx: &hcl.EvalContext{}, VarName: "v"}
+		tctx := &hcl.EvalContext{Functions: map[string]function.Function{"strlen": StrlenFunc}}
+		return &hcldec.TransformExprSpec{Wrapped: s.Kids[0].Build(), Expr: mustExpr(src), TransformCtx: tctx, VarName: "v"}
 	case KTFunc:
 		f := wrapFunc
-		if s.Fn == "isnull" {
+		switch s.Fn {
+		case "isnull":
 			f = isNullFunc
+		case "strlen":
+			f = StrlenFunc
 		}
 		return &hcldec.TransformFuncSpec{Wrapped: s.Kids[0].Build(), Func: f}
 	case KRefine:
